@@ -483,16 +483,21 @@ func runWindow[P any](c *Ctx, g *c14Group[P], stream uint64, plan c14WindowPlan)
 	rawMod := two(8 * (sl + 1)) // raw scalars of sl+1 bytes: most are >= order
 
 	for _, n := range c14MsmLengths(maxK) {
+		// sparse plans: every length up to 16, the first length whose windows straddle three bytes
+		// (w = 11), and a seed-dependent third of the others
+		if plan.fullAt != nil && n > 16 && n != 1<<10 && rs.IntN(3) != 0 {
+			continue
+		}
 		cache = nil
 		w := c14Width(n)
 		nw := (8*sl + w - 1) / w
 		big1 := big.NewInt(1)
 		long := !plan.full(n)
 		if n == 0 {
-			c.Note("TRIVIAL")
+			fmt.Fprintf(c.Out, "#TRIVIAL\n")
 			ps, pts := points(big1, big1, 0)
 			g.runMsmg(c, "pub", 0, ps, pts, ssList(sl, nil))
-			c.Note("TRIVIAL")
+			fmt.Fprintf(c.Out, "#TRIVIAL\n")
 			g.runMsmg(c, "raw", 0, ps, pts, ssBytes(nil))
 			continue
 		}
@@ -539,7 +544,7 @@ func runWindow[P any](c *Ctx, g *c14Group[P], stream uint64, plan c14WindowPlan)
 		// 6. small scalars (< n): only the lowest window(s) populated
 		g.runMsmg(c, "pub", n, psDesc, ptsDesc, ssAffine(sl, big1, big.NewInt(0), big.NewInt(int64(n)), n))
 		if n <= 1<<10 {
-			c.Note("TRIVIAL")
+			fmt.Fprintf(c.Out, "#TRIVIAL\n")
 			g.runMsmg(c, "pub", n, psLin, ptsLin, ssAll(sl, big.NewInt(0), n))
 		}
 		// --- raw byte strings: scalars >= order, lengths 1, sl+1; all-ones; empty strings
@@ -559,7 +564,7 @@ func runWindow[P any](c *Ctx, g *c14Group[P], stream uint64, plan c14WindowPlan)
 				_, _ = r.Read(bs[i])
 			}
 			g.runMsmg(c, "raw", n, psDesc, ptsDesc, ssBytes(bs))
-			c.Note("TRIVIAL")
+			fmt.Fprintf(c.Out, "#TRIVIAL\n")
 			g.runMsmg(c, "raw", n, psLin, ptsLin, ssBytes(make([][]byte, n))) // all empty: maxBits == 0
 		}
 		// --- the generic twin in algebrautils (big-endian bytes, any monoid)
@@ -571,7 +576,11 @@ func runWindow[P any](c *Ctx, g *c14Group[P], stream uint64, plan c14WindowPlan)
 	}
 
 	// explicit points (identity, small order, repeated) through the raw low-level function
-	for _, n := range []int{1, 3, 7, 8, 9, 16, 33} {
+	rawLens := []int{1, 3, 7, 8, 9, 16}
+	if c.Thorough() {
+		rawLens = append(rawLens, 17, 33)
+	}
+	for _, n := range rawLens {
 		pool := []P{g.id, g.gen, g.neg(g.gen), g.dbl(g.gen)}
 		for _, t := range g.extra {
 			pool = append(pool, t, g.add(g.gen, t))
